@@ -3,6 +3,7 @@ package main
 import (
 	"fmt"
 	"go/constant"
+	"go/types"
 	"sort"
 	"strings"
 
@@ -871,4 +872,168 @@ func ruleC18Selection(c *Ctx) {
 		}
 		c.Check(len(why) == 0, "c18.select-contracts", "registered:daterange", c.P.Pos(f.Pos()), "[text(args[0]), text(args[1])]", strings.Join(uniq(why), "; "))
 	}
+}
+
+func init() { register("C18", ruleC18Pure, ruleC18ArgReader) }
+
+// ruleC18Pure: the contract functions are functions of their arguments.
+func ruleC18Pure(c *Ctx) {
+	c.Doc("c18.pure", "each contract function (encode, decode, hash, first, last, elementat, unwind, array, concat, if, to_lower, to_upper, changetype, daterange) and every module function it calls statically touches no package-level variable of the module other than the error sentinels (values of the module's error type, never assigned after init): no shared encoder, buffer, cache or counter — the result for an argument list cannot depend on earlier calls")
+	reg := c.registry()
+	names := []string{"encode", "decode", "hash", "first", "last", "elementat", "unwind", "array", "concat", "if", "to_lower", "to_upper", "changetype", "daterange"}
+	for _, name := range names {
+		f := reg[name]
+		if f == nil {
+			continue // reported by c18.registry
+		}
+		seen := map[*ssa.Function]bool{}
+		var bad []string
+		var visit func(g *ssa.Function, d int)
+		visit = func(g *ssa.Function, d int) {
+			if seen[g] || d > 6 || !c.P.InModule(g) || len(g.Blocks) == 0 {
+				return
+			}
+			seen[g] = true
+			allInstrs(g, func(_ *ssa.BasicBlock, in ssa.Instruction) {
+				for _, op := range in.Operands(nil) {
+					gl, ok := (*op).(*ssa.Global)
+					if !ok || gl.Pkg == nil || !strings.HasPrefix(gl.Pkg.Pkg.Path(), modPath) {
+						continue
+					}
+					if pt, isP := gl.Type().Underlying().(*types.Pointer); isP && isErrorSentinelType(pt.Elem()) {
+						if _, isStore := in.(*ssa.Store); !isStore {
+							continue
+						}
+					}
+					bad = append(bad, fmt.Sprintf("%s uses the package-level variable %s at %s", c.P.funcKey(g), gl.Name(), c.P.Pos(in.Pos())))
+				}
+				if call, isCall := in.(ssa.CallInstruction); isCall {
+					if cal := call.Common().StaticCallee(); cal != nil {
+						visit(cal, d+1)
+					}
+					for _, a := range call.Common().Args {
+						if mc, isMC := a.(*ssa.MakeClosure); isMC {
+							visit(mc.Fn.(*ssa.Function), d+1)
+						}
+					}
+				}
+			})
+		}
+		visit(f, 0)
+		c.Check(len(bad) == 0, "c18.pure", "registered:"+name, c.P.Pos(f.Pos()), fmt.Sprintf("%d module functions, no package-level state", len(seen)), strings.Join(uniq(bad), "; "))
+	}
+}
+
+// isErrorSentinelType: the module's error value types (implement error, declared in the module).
+func isErrorSentinelType(t types.Type) bool {
+	if nt, ok := t.(*types.Named); ok && nt.Obj().Pkg() != nil && strings.HasPrefix(nt.Obj().Pkg().Path(), modPath) {
+		ms := types.NewMethodSet(t)
+		if ms.Lookup(nt.Obj().Pkg(), "Error") != nil {
+			return true
+		}
+		ms = types.NewMethodSet(types.NewPointer(t))
+		return ms.Lookup(nt.Obj().Pkg(), "Error") != nil
+	}
+	return isErrorType2(t)
+}
+
+func isErrorType2(t types.Type) bool { return t.String() == "error" }
+
+// ruleC18ArgReader: the argument list a function receives.
+func ruleC18ArgReader(c *Ctx) {
+	c.Doc("c18.arg-reader", "argument evaluation (FuncArgReader): the list handed to a function is storage made by the call (never nil — ARRAY() is the empty array, not NULL); each argument expression contributes exactly one element, the unwrapped evaluation of that expression, appended in order; an evaluation error is returned")
+	f := c.P.Func(modPath, "FuncArgReader")
+	if f == nil {
+		c.Unknown("c18.arg-reader", "FuncArgReader", "-", "anchor lost")
+		return
+	}
+	c.Fn("FuncArgReader")
+	var why []string
+	// every success return's slice roots at a make/empty literal
+	allInstrs(f, func(_ *ssa.BasicBlock, in ssa.Instruction) {
+		r, ok := in.(*ssa.Return)
+		if !ok || len(r.Results) != 2 {
+			return
+		}
+		if c1, is1 := r.Results[1].(*ssa.Const); !is1 || !c1.IsNil() {
+			// error return: nil list
+			if c0, is0 := r.Results[0].(*ssa.Const); !is0 || !c0.IsNil() {
+				why = append(why, "a list is returned together with an error at "+c.P.Pos(r.Pos()))
+			}
+			return
+		}
+		seen := map[ssa.Value]bool{}
+		var root func(v ssa.Value)
+		root = func(v ssa.Value) {
+			if seen[v] {
+				return
+			}
+			seen[v] = true
+			switch x := v.(type) {
+			case *ssa.Phi:
+				for _, e := range x.Edges {
+					root(e)
+				}
+			case *ssa.Call:
+				if bi, isB := x.Call.Value.(*ssa.Builtin); isB && bi.Name() == "append" {
+					root(x.Call.Args[0])
+					return
+				}
+				why = append(why, "the list returned at "+c.P.Pos(r.Pos())+" is "+NewTB().Of(v).String())
+			case *ssa.MakeSlice:
+			case *ssa.Slice:
+				if _, isAl := x.X.(*ssa.Alloc); !isAl {
+					why = append(why, "the list returned at "+c.P.Pos(r.Pos())+" is "+NewTB().Of(v).String())
+				}
+			default:
+				why = append(why, "the list returned at "+c.P.Pos(r.Pos())+" is "+NewTB().Of(v).String()+", not storage made by the call (a nil list makes ARRAY() NULL)")
+			}
+		}
+		root(r.Results[0])
+	})
+	loops := rangeLoops(f)
+	if len(loops) != 1 {
+		why = append(why, fmt.Sprintf("%d loops over the argument expressions (1 expected)", len(loops)))
+	} else {
+		lp := loops[0]
+		paths, err := WalkFrom(f, lp.body, lp.header, WalkCfg{StopAt: func(b *ssa.BasicBlock) bool { return b == lp.header }, MaxVisits: 1})
+		if err != nil {
+			c.Unknown("c18.arg-reader", "FuncArgReader", c.P.Pos(f.Pos()), err.Error())
+			return
+		}
+		n := 0
+		for _, p := range paths {
+			if p.Exit != "stop" {
+				continue
+			}
+			n++
+			apps := 0
+			for _, e := range p.Effects {
+				if isAppendOf(e) {
+					apps++
+					v := e.Args[1]
+					if v.Op == "varargs" && len(v.Args) == 1 {
+						v = v.Args[0]
+					}
+					x := ext0(v)
+					a, ok := callArgs(x, "ValueOf")
+					if x == nil || !ok || len(a) != 3 {
+						why = append(why, "an argument is appended without unwrapping: "+v.String())
+						continue
+					}
+					ea, isE := callArgs(ext0(a[2]), "Expr")
+					if !isE || len(ea) < 3 || !elemOfLoop(ea[2], lp) {
+						why = append(why, "the appended value is not the evaluation of the loop's own argument expression: "+a[2].String())
+					}
+				}
+			}
+			if apps != 1 {
+				why = append(why, fmt.Sprintf("an argument contributes %d elements", apps))
+			}
+		}
+		if n == 0 {
+			why = append(why, "no completing iteration path")
+		}
+	}
+	c.Check(len(why) == 0, "c18.arg-reader", "FuncArgReader", c.P.Pos(f.Pos()), "fresh non-nil list; one unwrapped evaluation per argument, in order", strings.Join(uniq(why), "; "))
 }
